@@ -21,6 +21,8 @@ SOURCES = [
     {"kind": "mnemonic", "mnemonic": MN, "password": ""},
     {"kind": "mnemonic", "mnemonic": "legal winner thank year wave sausage worth useful legal winner thank yellow", "password": "TREZOR pässwörd"},
     {"kind": "seed", "seed": "000102030405060708090a0b0c0d0e0f" * 4},
+    {"kind": "entropy", "entropy": "7f" * 16, "password": "entropy-source passphrase"},
+    {"kind": "entropy", "entropy": "00" * 4 + "a5" * 20, "password": ""},
     {"kind": "xkey", "k": 0x00000000000000000000000000000000F1E2D3C4B5A69788796A5B4C3D2E1F00, "chain": "00" * 32},
     {"kind": "xkey", "k": hd.N - 1, "chain": "ff" * 32},
     {"kind": "xkey", "k": 0x5D2A1C3B4E5F60718293A4B5C6D7E8F900112233445566778899AABBCCDDEEFF, "chain": "3c" * 32, "depth": 3, "index": hd.H + 7, "pfp": "0badcafe"},
@@ -41,6 +43,10 @@ def build(src, testnet):
         w = PaperWallet.from_mnemonic(src["mnemonic"], src["password"], testnet)
         m = hd.master(hd.seed_from_mnemonic(src["mnemonic"], src["password"]))
         return w, m, src["mnemonic"], src["password"]
+    if src["kind"] == "entropy":
+        mn = hd.mnemonic_from_entropy(bytes.fromhex(src["entropy"]))
+        w = PaperWallet.from_entropy_hex(src["entropy"], src["password"], testnet)
+        return w, hd.master(hd.seed_from_mnemonic(mn, src["password"])), mn, src["password"]
     if src["kind"] == "seed":
         w = PaperWallet.from_bip39_seed_hex(src["seed"], testnet)
         return w, hd.master(bytes.fromhex(src["seed"])), None, None
